@@ -259,6 +259,30 @@ fn check_codec(rt: &tokio::runtime::Runtime, list_name: &str, chunks: &[Vec<u8>]
             guarded(&ctx, || rt.block_on(async { deserialize_chunks_from_stream(futures::stream::iter(pieces)).await.map_err(|e| e.to_string()) })),
         );
     }
+    // truncated chunk sections: a decoder returns an error, or - when the cut falls exactly on a chunk boundary - the chunks before
+    // the cut; never data that its own boundaries do not cover
+    if buf.len() < 400_000 {
+        let mut cuts: Vec<usize> = w.boundaries.iter().flat_map(|b| { let b = *b as usize; [b.saturating_sub(1), b, b + 1, b + 4, b + 9] }).filter(|c| *c < buf.len()).collect();
+        cuts.extend([1usize, 7, 8, 9, buf.len() / 2, buf.len() - 1]);
+        cuts.sort(); cuts.dedup();
+        for cut in cuts.into_iter().filter(|c| *c < buf.len()).take(60) {
+            let t = &buf[..cut];
+            let s_ = guarded(&ctx, || deserialize_chunks(&mut Cursor::new(t)).map_err(|e| e.to_string()));
+            let a_ = guarded(&ctx, || rt.block_on(async { let mut r: &[u8] = t; deserialize_chunks_from_async_read(&mut r).await.map_err(|e| e.to_string()) }));
+            for (which, r) in [("sync deserialize_chunks", &s_), ("async deserialize_chunks_from_async_read", &a_)] {
+                if let Ok((d, idx)) = r {
+                    let covered = idx.last().copied().unwrap_or(0) as usize;
+                    let k = idx.len().saturating_sub(1);
+                    if d.len() != covered || k > chunks.len() || idx[..] != want_idx[..k + 1] || d[..] != want_data[..covered.min(want_data.len())] {
+                        witness(format!("{ctx}, chunk section truncated to {cut} of {} bytes: {which} returns Ok with {} bytes but its chunk boundaries {:?} cover {covered} bytes (the input's boundaries are {:?})", buf.len(), d.len(), &idx[idx.len().saturating_sub(3)..], &want_idx[..want_idx.len().min(4)]));
+                    }
+                }
+            }
+            // (whether a cut INSIDE a chunk is an error or the clean end of the list differs between the sync and the async decoder on
+            // the unchanged tree - the async one treats every UnexpectedEof as the end; that is outside C07, which speaks about
+            // serialized chunk lists, so only each decoder's own consistency is required here)
+        }
+    }
     // single-chunk decoders, chunk after chunk
     let mut sync_r = Cursor::new(&buf[..]);
     let mut async_r: &[u8] = &buf;
@@ -501,8 +525,10 @@ fn check_validators(rt: &tokio::runtime::Runtime, rng: &mut StdRng, list_name: &
         let mut m = bytes.to_vec();
         m[p] ^= 1 << rng.random_range(0..8);
         let what = format!("{base}, bit flipped in the stored payload of chunk {k} at offset {p}");
-        validate_both(rt, &what, &m, &t.root, Reject, Reject);
-        validate_both(rt, &format!("{what}, sent without footer"), &m[..footer_at], &t.root, Reject, Reject);
+        // a flipped bit in a COMPRESSED payload may decode to the same bytes (an LZ4 match offset into a run of equal bytes, an unused
+        // frame bit): an acceptance is then sound, so the oracle is soundness, not rejection
+        validate_both(rt, &what, &m, &t.root, Sound, Sound);
+        validate_both(rt, &format!("{what}, sent without footer"), &m[..footer_at], &t.root, Sound, Sound);
     }
     // 4. two different chunks swapped, footer rewritten coherently for the swapped data (serialize_given_info) but cashash kept
     if let Some((i, j)) = (0..n).flat_map(|i| (i + 1..n).map(move |j| (i, j))).find(|(i, j)| chunks[*i] != chunks[*j]) {
@@ -615,6 +641,14 @@ fn main() {
     lists.push(("single float chunk".into(), vec![floats(&mut rng, 30_001)], false));
     let tiny: Vec<Vec<u8>> = (0..300).map(|i| match i % 3 { 0 => random(&mut rng, 1 + i % 17), 1 => vec![i as u8; 1 + i % 23], _ => floats(&mut rng, 4 + i % 9) }).collect();
     lists.push(("300 tiny chunks".into(), tiny, false));
+    // every small chunk count, several hash patterns each: the level-wise tree construction cuts on hash values, so short lists
+    // (in particular 2..8 entries) take different shapes depending on the chunk hashes
+    for n in 1..=12usize {
+        for v in 0..8usize {
+            let few: Vec<Vec<u8>> = (0..n).map(|i| random(&mut rng, 3 + (i * 7 + v) % 11)).collect();
+            lists.push((format!("{n} tiny random chunks (variant {v})"), few, false));
+        }
+    }
     // more chunks than the footer parsers' pre-allocation cap (AVERAGE_NUM_CHUNKS_PER_XORB * 9 / 8 = 1152), up to the format's usual maximum
     for n in [1152usize, 1153, 3000, 8192] {
         let many: Vec<Vec<u8>> = (0..n).map(|i| vec![(i % 251) as u8; 1 + i % 5]).collect();
@@ -628,6 +662,50 @@ fn main() {
             check_codec(&rt, name, chunks, sname, scheme);
             let (bytes, t) = check_xorb(&mut rng, name, chunks, sname, scheme);
             check_validators(&rt, &mut rng, name, chunks, sname, scheme, &bytes, &t, *exhaustive);
+        }
+    }
+    // hand-built chunk sections whose headers are individually within the limits but do not describe their payload: a STORED chunk
+    // (scheme 0) whose stored length differs from its unpacked length (padding between chunks / a chunk overlapping its successor),
+    // as first, middle and last chunk, with a footer that is consistent with the headers and a root over what a reader trusting the
+    // unpacked length would take.  The oracle is soundness: an acceptance needs a chunk section that decodes by the format rules.
+    {
+        use cas_object::CasObjectInfoV1;
+        let hdr = |c: usize, scheme: u8, u: usize| -> [u8; 8] { [0, c as u8, (c >> 8) as u8, (c >> 16) as u8, scheme, u as u8, (u >> 8) as u8, (u >> 16) as u8] };
+        for bad_at in 0..3usize {
+            for (clen, ulen) in [(116usize, 100usize), (40, 100), (100, 99), (99, 100)] {
+                let mut body: Vec<u8> = vec![];
+                let mut bounds: Vec<u32> = vec![];
+                let mut starts: Vec<usize> = vec![];
+                let mut ulens: Vec<usize> = vec![];
+                for k in 0..3usize {
+                    let (c, u) = if k == bad_at { (clen, ulen) } else { (80, 80) };
+                    body.extend_from_slice(&hdr(c, 0, u));
+                    starts.push(body.len());
+                    body.extend((0..c).map(|i| (i as u8).wrapping_mul(31).wrapping_add(k as u8 * 17 + 3)));
+                    bounds.push(body.len() as u32);
+                    ulens.push(u);
+                }
+                body.extend_from_slice(&[0xEE; 64]); // so that an over-long read of the last chunk stays inside the buffer
+                let body_len = *bounds.last().unwrap() as usize;
+                let taken: Vec<Vec<u8>> = (0..3).map(|k| body[starts[k]..starts[k] + ulens[k]].to_vec()).collect();
+                body.truncate(body_len);
+                let t = truth_of(&taken);
+                let mut info = CasObjectInfoV1::default();
+                info.cashash = t.root;
+                info.num_chunks = 3;
+                info.chunk_hashes = t.list.iter().map(|x| x.0).collect();
+                info.chunk_boundary_offsets = bounds.clone();
+                let mut tot = 0u32;
+                info.unpacked_chunk_offsets = ulens.iter().map(|u| { tot += *u as u32; tot }).collect();
+                info.fill_in_boundary_offsets();
+                let mut cur = Cursor::new(body.clone());
+                cur.set_position(body_len as u64);
+                CasObject::serialize_given_info(&mut cur, info).unwrap();
+                let forged = cur.into_inner();
+                let ctx = format!("hand-built xorb of 3 stored chunks, chunk #{bad_at} has stored length {clen} but unpacked length {ulen} (footer consistent with the headers)");
+                validate_both(&rt, &ctx, &forged, &t.root, Expect::Sound, Expect::Sound);
+                validate_both(&rt, &format!("{ctx}, sent without footer"), &forged[..body_len], &t.root, Expect::Sound, Expect::Sound);
+            }
         }
     }
     // random strings and random strings with a plausible info_length: never a panic, never an acceptance
